@@ -336,4 +336,6 @@ def run(src, out):
     out.attempt(f, "ell_update", lambda: t_ell_update(src))
     import algos
     algos.run(src, out, hdr)
+    import steps
+    steps.run(src, out, hdr)
     return hdr
